@@ -53,10 +53,31 @@ const (
 	KeyInt32
 	KeyUint32
 	KeyByte
+	KeyUint
+	KeyNamedInt    // type nInt int      (hashed through the reflect fallback of z.KeyToHash)
+	KeyNamedInt64  // type nInt64 int64
+	KeyNamedUint64 // type nUint64 uint64
+	KeyNamedString // type nString string
+	KeyNamedBytes  // type nBytes []byte
 	NumKeyKinds
 )
 
-var KeyKindNames = []string{"int", "uint64", "string", "[]byte", "int64", "int32", "uint32", "byte"}
+var KeyKindNames = []string{"int", "uint64", "string", "[]byte", "int64", "int32", "uint32", "byte", "uint",
+	"named int", "named int64", "named uint64", "named string", "named []byte"}
+
+// wideKind: integer kinds of 64 bits, for which key values far outside the
+// 32-bit range (and negative ones) are legal and distinct.
+func wideKind(k int) bool {
+	switch k {
+	case KeyInt, KeyUint64, KeyInt64, KeyUint, KeyNamedInt, KeyNamedInt64, KeyNamedUint64:
+		return true
+	}
+	return false
+}
+
+func stringKind(k int) bool {
+	return k == KeyString || k == KeyBytes || k == KeyNamedString || k == KeyNamedBytes
+}
 
 // Hasher kinds.
 const (
@@ -283,15 +304,15 @@ func GenPlan(profName string, seed uint64) *Plan {
 	nkeys := g.rng(pr.keysLo, pr.keysHi)
 	c.KeyKind = KeyInt
 	if g.p(pr.strKeys) {
-		c.KeyKind = g.pick([]int{KeyString, KeyBytes})
-	} else if g.p(400) {
-		c.KeyKind = g.pick([]int{KeyUint64, KeyUint64, KeyInt64, KeyInt32, KeyUint32, KeyByte})
+		c.KeyKind = g.pick([]int{KeyString, KeyBytes, KeyString, KeyBytes, KeyNamedString, KeyNamedBytes})
+	} else if g.p(500) {
+		c.KeyKind = g.pick([]int{KeyUint64, KeyUint64, KeyInt64, KeyInt32, KeyUint32, KeyByte, KeyUint, KeyNamedInt, KeyNamedInt, KeyNamedInt64, KeyNamedUint64})
 	}
 	p.Flags.Injective = true
 	if g.p(pr.collide) && nkeys >= 2 {
 		c.Hasher = HashCustom
-		if c.KeyKind == KeyInt && g.p(500) {
-			c.KeyKind = KeyString
+		if !stringKind(c.KeyKind) && g.p(500) {
+			c.KeyKind = g.pick([]int{KeyString, KeyNamedString, KeyBytes})
 		}
 		// groups of 2..4 keys share a primary hash
 		base := uint64(g.rng(1, 1<<20))
@@ -331,6 +352,23 @@ func GenPlan(profName string, seed uint64) *Plan {
 		}
 	}
 
+	if c.Hasher == HashDefault && wideKind(c.KeyKind) && g.p(350) {
+		// key values that differ only in their high bits (or sign): the low 32
+		// bits - and with them the shard - coincide for several keys
+		his := []int64{1 << 31, 1 << 32, 1 << 33, 1 << 40, -(1 << 32), -(1 << 31), -(1 << 62)}
+		for i := range c.Keys {
+			// keys come in pairs with identical low 31 bits: they would alias if
+			// the high bits (or the sign) were dropped anywhere
+			lo := uint64(i/2+1) + uint64(i/2)<<8
+			hi := int64(0)
+			if i%2 == 1 {
+				hi = g.pick64(his)
+			} else if g.p(300) {
+				hi = 1 << 36
+			}
+			c.Keys[i].Int = uint64(hi) + lo
+		}
+	}
 	if c.KeyKind == KeyByte {
 		// byte keys: 256 values, one shard each
 		for i := range c.Keys {
@@ -381,7 +419,7 @@ func GenPlan(profName string, seed uint64) *Plan {
 		per = 1
 	}
 	capMode := g.pick(pr.capMode)
-	hashDependent := c.Hasher == HashDefault && (c.KeyKind == KeyString || c.KeyKind == KeyBytes)
+	hashDependent := c.Hasher == HashDefault && stringKind(c.KeyKind)
 	if hashDependent {
 		// runtime.memhash is seeded per process: keep every decision independent of hash values
 		capMode = CapAll
